@@ -34,7 +34,9 @@ def REQUIRED(tier):  # noqa: N802
     return {"controller_calls": 3000, "polynomial_structures_checked": 6,
             "partially_linear_judged": 500, "ann_architectures[jit]": 10,
             "ann_architectures[py]": 100, "system_equation_calls": 300,
-            "min_ann_calls": 100, "inputs_unmodified_checks": 3000}
+            "min_ann_calls": 100, "inputs_unmodified_checks": 3000,
+            "lgpc_zero_denominator_judged": 10,
+            "calls_on_exactly_cancelling_inputs": 1000}
 
 
 def plan(tier: str, seed: int):
@@ -70,6 +72,10 @@ def systems():
     return _SYS
 
 
+SPECIAL = (0.0, 0.0, 0.0, 0.5, -0.5, 1.0, -1.0, 1.5, -1.5, 2.0, -2.0, 3.0,
+           -3.0)
+
+
 def gen_vec(rng, n, lo=-32.0, hi=32.0):
     kind = int(rng.integers(8))
     if kind == 0:
@@ -79,6 +85,11 @@ def gen_vec(rng, n, lo=-32.0, hi=32.0):
         v = rng.choice([lo, hi, 0.0, 1.0, -1.0], n).astype(float)
     elif kind == 2:
         v = rng.uniform(-1.0, 1.0, n)
+    elif kind == 3:
+        # small dyadic values: sums and products cancel EXACTLY, guards such
+        # as "denominator == 0" are taken (probability zero for continuous
+        # inputs)
+        v = rng.choice(SPECIAL, n).astype(float)
     else:
         v = rng.uniform(lo, hi, n)
     return v
@@ -233,10 +244,15 @@ def judge_family_call(ctx, fam, ctrl, dims, idx, s, t, p):
         if ctrl.name == "table_3_1_lgpc":
             a = s[0] * p[0] + p[1]
             # sin(params[3]/a) is ill-conditioned for tiny a: skip
-            if abs(a) < 1e-3 or abs(p[3] / a) > 1e4:
+            if a == 0.0:
+                # the documented guard: sin(1) - perfectly conditioned
+                ctx.count("lgpc_zero_denominator_judged")
+                sc = abs(p[2])
+            elif abs(a) < 1e-3 or abs(p[3] / a) > 1e4:
                 ctx.count("lgpc_ill_conditioned_skipped")
                 return
-            sc = abs(p[2]) * (1.0 + abs(p[3] / a) * 10.0)
+            else:
+                sc = abs(p[2]) * (1.0 + abs(p[3] / a) * 10.0)
         if ctrl.name == "cornejo_maceda" and any(
                 0 < abs(b) < 1e-6 for b in p[:3]):
             ctx.count("cornejo_ill_conditioned_skipped")
@@ -356,6 +372,18 @@ def run_shard(ctx, args):
                 k = int(rng.integers(len(lst_a)))
                 judge_ann(ctx, lst_a[k], dd, systems()[dd].control_dims,
                           arch[k], 2)
+    # every controller family on exactly cancelling inputs
+    for dims in (2, 3):
+        cs = controllers_for(dims)
+        for fam in ("predefined", "partially_linear", "peaks"):
+            lst = cs[fam] if isinstance(cs[fam], (list, tuple)) else [cs[fam]]
+            for idx, ctrl in enumerate(lst):
+                for _ in range(40 if args.get("c13_slice") else 150):
+                    sv = rng.choice(SPECIAL, dims).astype(float)
+                    pv = rng.choice(SPECIAL, ctrl.param_dims).astype(float)
+                    ctx.count("calls_on_exactly_cancelling_inputs")
+                    judge_family_call(ctx, fam, ctrl, dims, idx, sv,
+                                      float(rng.choice(SPECIAL)), pv)
     for a in range(args["archs"]):
         sd, cd, layers = random_arch(rng)
         ctrl = make_ann(sd, cd, list(layers))
@@ -414,6 +442,20 @@ def c13_corpus(r, rng):
     r.call("controller.generated_ann", f"{sd}/{cd}/{layers}",
            lambda: ctrl.controller(r.w(s, "state"), 0.5, r.w(p, "params"),
                                    r.w(out, "out")))
+    # history of the factory: a sibling with more outputs / more inputs was
+    # requested first; the arrays have the sizes of the LATER request
+    for _ in range(3):
+        sd, cd, layers = random_arch(rng)
+        make_ann(sd, cd + int(rng.integers(1, 4)), list(layers))
+        make_ann(sd + int(rng.integers(1, 3)), cd, list(layers))
+        ctrl2 = make_ann(sd, cd, list(layers))
+        s2 = rng.uniform(-2, 2, sd)
+        p2 = rng.uniform(-2, 2, oc.ann_param_count(sd, cd, layers))
+        out2 = np.empty(cd)
+        r.call("controller.generated_ann_after_sibling",
+               f"{sd}/{cd}/{layers}",
+               lambda: ctrl2.controller(r.w(s2, "state"), 0.5,
+                                        r.w(p2, "params"), r.w(out2, "out")))
 
 
 def replay(ctx, case):
